@@ -9,4 +9,5 @@ import CnbVerif.Props.C11
 #print axioms CnbVerif.C11.recreate_frame_abstract
 #print axioms CnbVerif.C11.sbom_paths_tied
 #print axioms CnbVerif.C11.not_found_means_absent
+#print axioms CnbVerif.C11.depth_budget_suffices
 #print axioms CnbVerif.C11.d4_counterexample
